@@ -168,6 +168,9 @@ type roundCase struct {
 	// its chain is sufficiently heavier the victim must end the round on it
 	honest  bool
 	sendCap uint64 // victim's WithMaxSendBlocks (0 = default 100): the request split size
+	// side: a fork the victim has ingested through AddBlocks without adopting it (stored, never
+	// applied: header-level states only)
+	side []types.Block
 }
 
 func (rc *roundCase) run(ip string) *vh.Case {
@@ -205,6 +208,17 @@ func (rc *roundCase) run(ip string) *vh.Case {
 		have += fmt.Sprintf(" %d", id)
 	}
 	c.Op(have, fmt.Sprintf("tip %d", reg.IDOfHeader(victim.CM.Tip().ID)))
+	if len(rc.side) > 0 {
+		op, res := "add", "ok"
+		for _, b := range rc.side {
+			op += fmt.Sprintf(" %d", reg.AddBlock(b))
+		}
+		if err := victim.CM.AddBlocks(rc.side); err != nil {
+			res = "err"
+		}
+		flush()
+		c.Op(op, fmt.Sprintf("err %s tip %d", res, reg.IDOfHeader(victim.CM.Tip().ID)))
+	}
 
 	s := newSession(rc.w.nt, reg, rc.view, rc.sc, victim)
 	bz, out, err := s.run(ip + ".2")
